@@ -44,7 +44,7 @@ def tables(bs):
         # what copy() rebuilds the CBC object from
         'copy_src': 'conj(self._key == %s, self._factory.g_fid == %s, self._factory.block_size == %s)' % (KEY, FID, BS),
         # a cached tag is only ever returned when no update can have followed it
-        'tag': '(self._mac_tag is not None and not self._update_after_digest) ==> self._mac_tag == spec.aead1.omac(%s, %s, %s, %s, self.digest_size)' % (FID, KEY, M, BS),
+        'tag': 'impl(conj(self._mac_tag is not None, not self._update_after_digest), self._mac_tag == spec.aead1.omac(%s, %s, %s, %s, self.digest_size))' % (FID, KEY, M, BS),
         'tag_len': '(self._mac_tag is not None and not self._update_after_digest and self.digest_size <= %s) ==> len(self._mac_tag) == self.digest_size' % BS,
     }
     return {'inv_' + k: v for k, v in inv.items()}
@@ -62,8 +62,9 @@ STATES = {'absorbing': {'_update_after_digest': ('const', False), '_mac_tag': 'n
           'uad_digested': {'_update_after_digest': ('const', True), '_mac_tag': 'bytes'}}
 
 
-def registry(bs=16, state=None, buf='bytes|memoryview'):
-    """bs: block size (8 | 16); state: key of STATES or None (= any: symbolic flag, lazily typed tag)"""
+def registry(bs=16, state=None, buf='bytes|memoryview', field_types=None):
+    """bs: block size (8 | 16); state: key of STATES or None (= any: symbolic flag, lazily typed tag); field_types: narrower
+    field types for a client that only ever builds such objects (EAX: update_after_digest is always False)"""
     reg = base_registry()
     add_number(reg)
     nat.add_random(reg)
@@ -75,6 +76,8 @@ def registry(bs=16, state=None, buf='bytes|memoryview'):
     fields = dict(FIELDS, _block_size=('const', bs), _cache='bytearray[%d]' % bs)
     if state:
         fields.update(STATES[state])
+    if field_types:
+        fields.update(field_types)
     reg.add(ClassContract(CM, fields=fields, valid=list(INV.values())))
 
     def ens(d):
